@@ -53,6 +53,9 @@ Expected(op) ==
                               IF x.w = 2 \/ x.sid = -1 \/ Vars(pool[op.id].abs.item) # <<>> THEN Refused
                               ELSE [x EXCEPT !.name = <<>>, !.dir = "H<->E"]
 NameFree(op) == op.k = "decode"      \* name and direction are not on the wire
+\* what a message encodes to follows from its fields: the E37 frame of the fields once it is complete, nothing before
+MsgBytes(a) == IF a.w # "optional" /\ a.sid # -1 /\ Vars(a.item) = <<>> THEN EncMsg(MsgOf(a, ByteLevel(a.item))) ELSE <<>>
+BytesFollow(e) == (e.res.kind = "msg" /\ "bytes" \in DOMAIN e.res) => e.res.bytes = MsgBytes(e.res.abs)
 C18Holds(e) ==
   LET op == e.op IN
   IF op.k = "fillmsg" THEN
@@ -60,7 +63,7 @@ C18Holds(e) ==
      IF ~fx.ok THEN e.res.outcome = "refused"
      ELSE /\ e.res.outcome = "new" /\ e.res.kind = "msg"
           /\ Rec(e.res.abs) = FillRes(MsgAt(op.id), Norm(fx.exp)) \/ Rec(e.res.abs) = FillRes(MsgAt(op.id), Norm(fx.alt))
-          /\ RepOK(Rec(e.res.abs))
+          /\ RepOK(Rec(e.res.abs)) /\ BytesFollow(e)
   ELSE IF op.k \in {"setwait", "setsession", "newmsg", "newhsms", "decode"} THEN
      LET exp == Expected(op) IN
      IF IsRefusal(exp) THEN e.res.outcome = "refused"
@@ -68,6 +71,7 @@ C18Holds(e) ==
           /\ e.res.kind = "msg"
           /\ Rec(e.res.abs) = exp                       \* every field: the named ones changed, all others carried over
           /\ RepOK(Rec(e.res.abs))                       \* same validity rules as a freshly constructed message
+          /\ BytesFollow(e)                              \* ... and the bytes it hands out are those of its fields
           /\ (e.res.outcome = "same" => (op.k = "setwait" /\ MsgAt(op.id).w # 2))
   ELSE IF op.k = "fillitem" THEN
      LET fx == FillExp(ItemAt(op.id), op) IN
